@@ -80,11 +80,20 @@ Print Assumptions ss58_ok_gives.
 (* premises satisfiable on a non-trivial value: Bitcoin under BIP-84 *)
 Example coin_ok_gives_nonvacuous :
   exists c b, find_coin FBip84 (str "BITCOIN") all_coins = Some c /\ c_body c = CBip b /\
+    coin_ok the_env c = true /\ addr_conf_ok the_env (b_curve b) (b_addr b) = true /\
     full_default_path FBip84 b = Ok [purpose_bip84; harden 0; harden 0; 0; 0] /\
     b_key_pub b = [4; 178; 71; 70] /\ b_wif b = Some [128] /\
     a_params (b_addr b) = APHrp (str "bc").
 Proof. exact CoinsOk.bitcoin84_default_path. Qed.
 Print Assumptions coin_ok_gives_nonvacuous.
+
+Example side_conditions_nonvacuous :
+  hrp_ok (str "bc") = true /\ hrp_ok (str "Bc") = false /\ hrp_ok [] = false /\
+  ss58_ok 42 = true /\ ss58_ok 46 = false /\ ss58_ok 16384 = false /\
+  In (FBip44, str "ELROND", str "MULTIVERSX") enum_aliases /\
+  In (FBip44, str "NEO", str "NEO_LEGACY") enum_aliases.
+Proof. exact CoinsOk.side_conditions_examples. Qed.
+Print Assumptions side_conditions_nonvacuous.
 
 (* 2. self-contained parts of coin_end_to_end *)
 Theorem net_versions_distinct : forall c b, In c all_coins -> c_body c = CBip b ->
